@@ -222,7 +222,7 @@ func Narrow(p *core.Prog, r *core.Report) {
 		})
 	}
 	r.Count("native_select_sites", nSel)
-	r.Floor("native_select_sites", 3)
+	r.Floor("native_select_sites", 2)
 	// NATIVE-DISPATCH: evaluated (constant propagation over the kind of the datum, nothing runs) for each Go
 	// numeric carrier type separately, every facade must reach the comparator of the matching exact arithmetic:
 	// signed kinds the int64 one, unsigned kinds the uint64 one, floats only the float64 one. A kind that falls
@@ -329,7 +329,7 @@ func Narrow(p *core.Prog, r *core.Report) {
 		r.Floor("native_dispatch_cases", 36)
 	}
 	r.Count("native_facade_calls", nNative)
-	r.Floor("native_facade_calls", 3)
+	r.Floor("native_facade_calls", 2)
 	r.Count("numeric_conversions", total)
 	r.Count("numeric_conversions_lossy", nLossy)
 	r.Floor("numeric_conversions", 15)
